@@ -30,8 +30,25 @@ inductive Shape
 def boxRing (x0 y0 x1 y1 : Rat) : List Pt :=
   [(x1, y0), (x1, y1), (x0, y1), (x0, y0), (x1, y0)]
 
+/-- shapely builds a `LinearRing` from every ring: an open ring gets its first vertex
+    appended, and so does a closed ring of only three vertices (a ring has at least four) -/
+def closeRing (r : List Pt) : List Pt :=
+  match r with
+  | [] => []
+  | p :: _ => if r.getLast? ≠ some p ∨ r.length < 4 then r ++ [p] else r
+
 /-- `Polygon(shell = rings[0], holes = rings[1:])` -/
-def polyOf (rings : List (List Pt)) : List Pt × List (List Pt) := (rings.headD [], rings.tail)
+def polyOf (rings : List (List Pt)) : List Pt × List (List Pt) :=
+  (closeRing (rings.headD []), rings.tail.map closeRing)
+
+/-- the ring is stored closed (first vertex repeated at the end, at least four vertices) -/
+def ringClosed (r : List Pt) : Bool := r.getLast? == r.head? && decide (4 ≤ r.length)
+
+/-- every ring of the geometry is stored closed -/
+def RingsClosed : Geom → Bool
+  | .polygon rings => rings.all ringClosed
+  | .multiPolygon ps => ps.all (fun rings => rings.all ringClosed)
+  | _ => true
 
 /-- `geometry_to_shapely`, one case per `*_to_shapely` function -/
 def toShape : Geom → Shape
